@@ -435,9 +435,87 @@ def matrices2010_case():
                      "W = R3(-s') R2(xp) R1(yp), element by element")
 
 
+G50_REF = [[0.9999256794956877, -0.0111814832204662, -0.0048590038153592],
+           [0.0111814832391717, 0.9999374848933135, -0.0000271625947142],
+           [0.0048590037723143, -0.0000271702937440, 0.9999881946023742]]
+BIAS_MAS = {"dalpha0": -14.6, "xi0": -16.6170, "eta0": -6.8192}          # IERS Conventions (2003) frame bias, milli-arcseconds
+
+
+def providers_case():
+    """the parameter-free providers of the orientation graph: TEME -> TOD is R3(-Eq) with the 4-term geometric equation of the
+    equinoxes (Vallado's TEME definition: no kinematic terms, no EOP correction); PEF -> TOD uses the apparent sidereal time; the
+    two constant matrices are proper rotations to 1e-13 and equal the published FK4->FK5 matrix / the first-order frame bias"""
+    ins = [("eq", "angle", {"lo": "free"})]
+
+    def run(env, v):
+        ori = _mod(env, "beyond.frames.orient")
+        iau = ori.iau1980
+        if env.symbolic:
+            iau = env.mod("beyond.frames.iau1980")
+            ori.iau1980 = iau
+        seen = {}
+        saved = {"equinox": iau.equinox, "sideral": iau.sideral}
+
+        def eqx(date, eop_correction=True, terms=106, kinematic=True):
+            seen["teme"] = (eop_correction, terms, kinematic)
+            return v["eq"] * 180 / env.pi
+
+        def sid(date, longitude=0.0, model="mean", eop_correction=True, terms=106):
+            seen["pef"] = (longitude, model)
+            return "M"
+        iau.equinox, iau.sideral = eqx, sid
+        iau_rate = iau.rate
+        iau.rate = lambda date: np.array([0, 0, 1])
+        try:
+            M, rate = ori.Orientation.TEME_to_TOD(ori.TEME, None)
+            M2, rate2 = ori.Orientation.PEF_to_TOD(ori.PEF, None)
+        finally:
+            _restore(iau, saved)
+            iau.rate = iau_rate
+        G, _ = ori.Orientation.G50_to_EME2000(ori.G50, None)
+        B, _ = ori.Orientation.GCRF_to_EME2000(ori.GCRF, None)
+        Gx = np.array([[env.const(float(x)) for x in row] for row in G], dtype=object if env.symbolic else float)
+        Bx = np.array([[env.const(float(x)) for x in row] for row in B], dtype=object if env.symbolic else float)
+        ok = seen.get("teme") == (False, 4, False) and rate is None and seen.get("pef") == (0.0, "apparent") and M2 == "M" \
+            and list(rate2) == [0, 0, -1]
+
+        def close(a, b, tol):
+            d = a - b
+            return (d < tol) & (d > -tol) if env.symbolic else bool(abs(d) < tol)
+
+        def allc(conds):
+            out = conds[0]
+            for c in conds[1:]:
+                out = (out & c) if env.symbolic else (out and c)
+            return out
+        I = [[1 if i == j else 0 for j in range(3)] for i in range(3)]
+        orth = []
+        for Mx in (Gx, Bx):
+            MtM = Mx.T @ Mx
+            orth += [close(MtM[i][j], I[i][j], 1e-13) for i in range(3) for j in range(3)]
+        k = env.pi / 180 / 3600000
+        da, xi, eta = (env.const(BIAS_MAS[n]) * k for n in ("dalpha0", "xi0", "eta0"))
+        bias = [close(Bx[0][1], -da, 1e-11), close(Bx[1][0], da, 1e-11), close(Bx[0][2], xi, 1e-11), close(Bx[2][0], -xi, 1e-11),
+                close(Bx[1][2], eta, 1e-11), close(Bx[2][1], -eta, 1e-11)]
+        if env.symbolic:
+            from symx import core
+            CTX.assume(core.PI_T > z3.RealVal("3.14159265358"), core.PI_T < z3.RealVal("3.14159265359"))
+        return {"TEME_to_TOD": M, "wiring": Holds(SB(z3.BoolVal(ok)) if env.symbolic else ok), "G50": [list(r) for r in Gx],
+                "const_orthonormal": Holds(allc(orth)), "frame_bias": Holds(allc(bias))}
+
+    def ref(env, v, out):
+        c, s = env.cos(v["eq"]), env.sin(v["eq"])
+        return {"TEME_to_TOD": [[c, -s, 0], [s, c, 0], [0, 0, 1]], "wiring": None,
+                "G50": [[env.const(x) for x in row] for row in G50_REF], "const_orthonormal": None, "frame_bias": None}
+    return Case("models/providers", ins, run, ref, timeout=60, tol=1e-15, abs_tol=1e-15,
+                desc="TEME->TOD = R3(-Eq_equinox(4 terms, geometric)), PEF->TOD = apparent sidereal rotation with rate -w; the constant "
+                     "G50->EME2000 and GCRF->EME2000 matrices are orthonormal to 1e-13, the former equal to the published FK4->FK5 "
+                     "matrix, the latter to the IERS frame bias (dalpha0, xi0, eta0) to first order within 1e-11 rad (2 micro-arcseconds; the published xi0 is given to 0.1 uas and the matrix in the code differs from it by 0.14 uas)")
+
+
 def cases(tier):
     cs = [poly80_case(), nutation_series_case(1), nutation_series_case(2), equinox_case(), gast_case(), matrices80_case(),
-          poly2010_case(), series2010_case(), xys_case(), matrices2010_case()]
+          poly2010_case(), series2010_case(), xys_case(), matrices2010_case(), providers_case()]
     if tier != "quick":
         cs.append(nutation_series_case(3))
     return cs
